@@ -69,8 +69,12 @@ def ret_payload(k, rv):
     return struct.pack("<Q", rv)[:spec_size(s)]
 
 
+FINISH_FN = 14              # UFTRACE_TRIGGER=f14@finish; UFTRACE_SIGNAL=SIGUSR1@finish
+
+
 def prod_env(with_args):
-    env = {"UFTRACE_FILTER": ";".join("!f%d" % k for k in NOTRACE)}
+    env = {"UFTRACE_FILTER": ";".join("!f%d" % k for k in NOTRACE), "UFTRACE_TRIGGER": "f%d@finish" % FINISH_FN,
+           "UFTRACE_SIGNAL": "SIGUSR1@finish"}
     if with_args:
         env["UFTRACE_ARGUMENT"] = ";".join("f%d@%s" % (k, ",".join(v)) for k, v in sorted(ARGSPEC.items()))
         env["UFTRACE_RETVAL"] = ";".join("f%d@%s" % (k, v) for k, v in sorted(RETSPEC.items()))
@@ -92,7 +96,7 @@ def gen_case(rng, boundary=None):
             k = stack.pop()
             ops.append(("X", t, rng.randrange(1 << 40)))
         else:
-            k = rng.randrange(NFUNC) if with_args else rng.choice([0, 7, 8, 10, 11, 12, 12])
+            k = rng.choice([x for x in range(NFUNC) if x != FINISH_FN]) if with_args else rng.choice([0, 7, 8, 10, 11, 12, 12])
             stack.append(k)
             ops.append(("E", k, t, rng.randrange(1 << 48), rng.randrange(1 << 32)))
     mode = rng.choice(["kill", "kill", "kill", "kill", "segv", "abrt", "exit", "end"])
@@ -100,9 +104,23 @@ def gen_case(rng, boundary=None):
         mode = boundary
     if mode == "kill" and len(ops) < 2:
         mode = "segv"          # the first hook call sets the thread up: it is never the kill op
+    end, close = None, None
+    x = rng.random()
+    if boundary is None and x < 0.30 and not (stack and stack[-1] in NOTRACE):
+        # the recording of this thread ends between two hook calls: finish trigger, signal trigger, thread end
+        end = rng.choice(["trigger", "signal", "signal", "tend"])
+        if mode == "kill":
+            mode = rng.choice(["exit", "segv", "end"])
+        if end == "trigger":
+            t += 7
+            ops.append(("E", FINISH_FN, t, 0, 0))
+    if boundary is None and len(ops) >= 3 and rng.random() < 0.25:
+        close = rng.randrange(1, len(ops))          # another thread's mcount_trace_finish closes the pipe before this op
     sync = [rng.random() < 0.3 for _ in ops]
+    if end == "signal" and ops[-1][0] == "E":
+        sync[-1] = False        # (that entry hook only runs mtd_dtor: it is not an op of the model)
     e = rng.randrange(0, 9) if mode == "kill" else None
-    return {"cap": cap, "ops": ops, "sync": sync, "mode": mode, "e": e, "args": with_args}
+    return {"cap": cap, "ops": ops, "sync": sync, "mode": mode, "e": e, "args": with_args, "end": end, "close": close}
 
 
 def case_script(c):
@@ -112,6 +130,10 @@ def case_script(c):
         if c["sync"][i]:
             lines.append("S")
             actions.append("R")
+        if c.get("close") == i:
+            lines.append("CLOSE")
+        if c.get("end") == "signal" and i == n - 1:
+            lines.append("SIG")
         if c["mode"] == "kill" and i == n - 1:
             lines.append("S")
             actions.append("K%d" % c["e"])
@@ -119,6 +141,8 @@ def case_script(c):
             lines.append("E %d %d %d %d" % (o[1], o[2], o[3], o[4]))
         else:
             lines.append("X %d %d" % (o[1], o[2]))
+    if c.get("end") == "tend":
+        lines.append("TEND")
     if c["mode"] == "kill":
         lines.append("S")
         actions.append("K0")
@@ -169,9 +193,17 @@ def coq_nats(l):
     return "[" + "; ".join("%d" % x for x in l) + "]"
 
 
+def model_ops(c):
+    """the hook calls that reach the recording code: after a signal trigger an entry hook only runs mtd_dtor"""
+    ops = c["ops"]
+    if c.get("end") == "signal" and ops and ops[-1][0] == "E":
+        return ops[:-1]
+    return ops
+
+
 def coq_ops(c, f0):
     out, stack = [], []
-    for o in c["ops"]:
+    for o in model_ops(c):
         if o[0] == "E":
             k = o[1]
             stack.append(k)
@@ -185,11 +217,17 @@ def coq_ops(c, f0):
 
 
 def coq_case(c, r, f0):
+    end = c.get("end")
+    flush = (end == "trigger") if end else c["mode"] in ("segv", "abrt")
+    nmo = len(model_ops(c))
     return ("{| tc_single := " + coq.coq_bool(SINGLE_BUMP) + "; tc_cap := %d; tc_ops := %s; tc_sync := [%s]; tc_kill := %s; tc_flush := %s; "
+            "tc_close := %d; tc_end := %d; "
             "tc_shl := %s; tc_shf := %s; tc_wl := %s; tc_file := %s |}" % (
-                c["cap"], coq_ops(c, f0), "; ".join(coq.coq_bool(b) for b in c["sync"]),
+                c["cap"], coq_ops(c, f0), "; ".join(coq.coq_bool(b) for b in c["sync"][:nmo]),
                 ("Some %d" % c["e"]) if c["mode"] == "kill" else "None",
-                coq.coq_bool(c["mode"] in ("segv", "abrt")),
+                coq.coq_bool(flush),
+                c["close"] if c.get("close") is not None else nmo + 9,
+                {None: 0, "trigger": 1, "signal": 1, "tend": 1 if c.get("close") is not None else 2}[end],
                 coq_nats(r["shl"]), coq_bytes(r["shf"]), coq_nats(r["wl"]), coq_bytes(r["file"])))
 
 
@@ -220,7 +258,7 @@ def model_obs(ctx, c, r, f0):
 
 def case_json(c, r=None):
     j = {"cap": c["cap"], "ops": [list(o) for o in c["ops"]], "sync": c["sync"], "mode": c["mode"], "e": c["e"],
-         "args": c["args"]}
+         "args": c["args"], "end": c.get("end"), "close": c.get("close")}
     if r is not None:
         j["impl"] = {"status": r.get("status"), "shl": r.get("shl"), "shf": r.get("shf"), "wl": r.get("wl"),
                      "file": r.get("file", b"").hex()}
@@ -229,7 +267,7 @@ def case_json(c, r=None):
 
 def case_from_json(j):
     return {"cap": j["cap"], "ops": [tuple(o) for o in j["ops"]], "sync": j["sync"], "mode": j["mode"], "e": j["e"],
-            "args": j["args"]}
+            "args": j["args"], "end": j.get("end"), "close": j.get("close")}
 
 
 def build_store(ctx, objdir):
@@ -347,6 +385,10 @@ def run_store(ctx, objdir):
             tags.append("store:kill-in-history-with-payload-records")
         if c.get("directed"):
             tags.append("store:directed-" + c["directed"])
+        if c.get("end"):
+            tags.append("store:recording-ends-by-" + c["end"])
+        if c.get("close") is not None:
+            tags.append("store:pipe-closed-by-another-thread")
         ctx.case(key=("store", json.dumps(case_json(c), sort_keys=True)), nontrivial=len(r["file"]) > 0, tags=tags,
                  size=len(c["ops"]), sample=case_json(c, r) if len(ctx.samples) < 2 and nrec > 2 else None)
     store_verdict(ctx, good_c, good_r, res, f0)
